@@ -222,8 +222,13 @@ func ZZC08_gc_lock_step() {
 	case 1:
 		o.GCUnlock(r)
 		zzReach("unlocked")
-		if L > 0 {
-			zzAssert(o.modRefs[r.Path].locks == L-1, "unlock_decrements")
+		if L > 1 {
+			// other holders remain: their locks must survive this unlock
+			gc := o.modRefs[r.Path]
+			zzAssert(gc != nil && gc.locks == L-1, "unlock_keeps_the_other_locks")
+		} else if L == 1 {
+			gc := o.modRefs[r.Path]
+			zzAssert(gc == nil || gc.locks == 0, "unlock_decrements")
 		} else {
 			zzAssert(o.modRefs[r.Path] == nil || o.modRefs[r.Path].locks == 0, "unlock_never_negative")
 		}
